@@ -28,6 +28,7 @@ func c10() {
 		}
 	}
 	longSpec := vlib.SpecOf(&seccomp.Policy{DefaultAction: vlib.RetErrno, Syscalls: []seccomp.SyscallGroup{{Names: allow, Action: vlib.RetAllow}}}, "x86_64")
+	logSpec := vlib.SpecOf(&seccomp.Policy{DefaultAction: vlib.RetAllow, Syscalls: []seccomp.SyscallGroup{{Names: []string{"getppid"}, Action: vlib.RetErrno}, {Names: []string{"sync", "getpgrp"}, Action: vlib.RetLog}}}, "x86_64")
 	states := []string{"spin", "probe", "sleep", "pipe", "futex"}
 	sizes := []int{1, 2, 4, 8, 16, 32, 64}
 	n := run.N(112, 4000)
@@ -62,6 +63,9 @@ func c10() {
 		cc := &vlib.ChildCase{Policy: spec, NNP: i%3 != 1, TSync: tc}
 		if i%4 == 2 { // a long program (early-return bridges) instead of the tiny one
 			cc.Policy = longSpec
+		}
+		if i%5 == 1 { // a policy that uses the log action (not to be confused with the log flag)
+			cc.Policy = logSpec
 		}
 		if flags&1 != 0 {
 			cc.FlagNames = append(cc.FlagNames, "tsync")
